@@ -81,6 +81,9 @@ def get_resource_schema(resource: XMLResource,
         return schema
 
     if use_location_hints:
+        if kwargs.get('allow') == 'sandbox' and kwargs.get('base_url') is None:
+            # Location hints have to stay in the sandbox of the XML resource
+            kwargs['base_url'] = resource.base_url
         try:
             schema_location, locations = fetch_schema_locations(resource, locations, **kwargs)
         except ValueError:
